@@ -683,7 +683,7 @@ impl Check for ComplexTwin {
         let er = or.items.iter().map(|(t, y)| (C64::new(y[0], y[1]) - exact(*t)).norm()).fold(0.0, f64::max);
         let g = ((l * (t1 - t0)).exp() - 1.0) / l;
         let bdf = matches!(p.solver, Solver::BDF6 | Solver::BDF2);
-        let bound = if p.solver == Solver::Euler { cfg.dtmax * l * l * z0.norm() * (0.0f64.max(lam.re) * (t1 - t0)).exp() / (2.0 * l) * ((l * (t1 - t0)).exp() - 1.0) * 1.5 } else { KG * g * p.tol * if bdf { oc.items.len().max(1) as f64 } else { 1.0 } } + 1e-13 * amp.max(1.0);
+        let bound = if p.solver == Solver::Euler { cfg.dtmax * l * l * z0.norm() * (0.0f64.max(lam.re) * (t1 - t0)).exp() / (2.0 * l) * ((l * (t1 - t0)).exp() - 1.0) * 1.5 } else { kg_of(p.solver) * g * p.tol * if bdf { oc.items.len().max(1) as f64 } else { 1.0 } } + 1e-13 * amp.max(1.0);
         o.metric(&format!("{}-complex-err/bound", p.solver.name()), ec / bound);
         if oc.items.is_empty() || end_name(&oc) != "Done" {
             o.viol(&subj, "complex-problem-is-solved", format!("{:?}: {} points, end {}", p, oc.items.len(), end_name(&oc)));
